@@ -534,11 +534,121 @@ def getters(prog, rep, roles):
                     bad.append('no %s on the field the setters write' % op)
                     continue
                 bad.extend(arg_is_validated(e, s.state, e.deref_value(s.state, hit[2][1]) if hit[2][1][0] in ('ref', 'cref') else hit[2][1], role, roles))
+                if op == 'get':
+                    # what is handed back lists the values found under the key (all of them, stored order), or nothing when the key is absent
+                    pay = s.ret[3][0] if s.ret[0] == 'adt' and s.ret[2] == 'Ok' and s.ret[3] else None
+                    x = pay
+                    for _ in range(6):
+                        if x is not None and x[0] == 'pure' and x[1].split('::')[-1] in ('map', 'copied', 'cloned') and x[2]:
+                            if x[1].split('::')[-1] == 'map' and len(x[2]) == 2 and not emit_transparent(prog, e, s, x[2][1]):
+                                x = None
+                                break
+                            x = x[2][0]
+                        else:
+                            break
+                    okv = False
+                    if x is not None and x[0] == 'sliceiter':
+                        sj = x[1]
+                        const_empty = sj[0] == 'CONST' or (sj[0] == 'P' and sj[1][0] in ('ref', 'cref') and isinstance(sj[1][1], tuple) and sj[1][1] and sj[1][1][0] in ('MEM', 'STR', 'array') and not sj[1][1][1])
+                        found = bool(terms.find_terms(sj, lambda t: t[0] == 'pos' and t[1][0] in ('call', 'pure') and t[1][1].split('::')[-1] == 'get' and t[1] == ('pure', hit[1], tuple(t[1][2])) or
+                                                      (t[0] == 'pos' and t[1][0] in ('call', 'pure') and t[1][1] == hit[1])))
+                        gt = [v for k, v in s.state.facts.items() if k[0] == 'tag' and k[1][0] in ('call', 'pure') and k[1][1] == hit[1]]
+                        okv = (found and gt == ['pos']) or (const_empty and gt == ['neg'])
+                    if not okv:
+                        bad.append('the values handed back are not exactly the list stored under the key (or nothing for an absent key): %s' % e.short(pay, 140))
             if not nok:
                 bad.append('no successful path')
             rep.ob('getter:%s::%s' % (ty, name), 'TS-GETTER', fn, b['span'], ('%s::%s validates its argument as a %s and looks it up in the field the setters write' % (ty, name, role)) if role else ('%s::%s looks exactly its argument up in the list the setters write' % (ty, name)),
                    not bad, detail='\n'.join(sorted(set(bad))[:4]), how='%d paths' % len(segs))
     return n
+
+
+LISTINGS = {
+    # (type, public accessor) -> role of the elements it must list, all of them, in stored order
+    ('LanguageIdentifier', 'variants'): 'Option<Box<[Variant]>>.elem',
+    ('UnicodeExtensionList', 'attributes'): 'Vec<TinyAsciiStr<8>>.elem',
+    ('UnicodeExtensionList', 'keyword_keys'): 'BTreeMap<TinyAsciiStr<4>,Vec<TinyAsciiStr<8>>>.keys.elem',
+    ('TransformExtensionList', 'tfield_keys'): 'BTreeMap<TinyAsciiStr<4>,Vec<TinyAsciiStr<8>>>.keys.elem',
+    ('PrivateExtensionList', 'tags'): 'Vec<TinyAsciiStr<8>>.elem',
+}
+
+
+def listing_getters(prog, rep):
+    """TS-LISTING: the accessors that list a collection return an iterator over exactly that field: every element, stored order, at most a
+    projection to the element's text (no skip / rev / take / filter / step_by, no other field)"""
+    from .. import emit
+    n = 0
+    for (ty, name), want in sorted(LISTINGS.items()):
+        crate = mu.TYPES.get(ty, 'unic_locale_impl')
+        fns = [f for f, b in prog.bodies.items() if f.startswith(crate + '::') and b['kind'] == 'AssocFn' and b.get('impl') and not b['impl']['trait']
+               and b['impl']['self_ty'].split('::')[-1] == ty and f.endswith('::' + name)]
+        for fn in fns:
+            n += 1
+            b = prog.bodies[fn]
+            full, adt = terms.find_adt(prog.facts, b['impl']['self_ty'])
+            bad = []
+            try:
+                em = emit.Emission(prog, fn, full)
+            except pxm.Limit as ex:
+                rep.ob('listing:%s::%s' % (ty, name), 'TS-LISTING', fn, b['span'], 'accessor explored', False, 'INCONCLUSIVE(%s)' % ex)
+                continue
+            nret = 0
+            for s in em.segs:
+                if s.kind != 'return':
+                    bad.append('path ends in %s' % s.kind)
+                    continue
+                nret += 1
+                items = em.iter_items(s.state, s.ret)
+                if items is None:
+                    bad.append('INCONCLUSIVE(returned iterator %s)' % em.e.short(s.ret, 140))
+                    continue
+                if items == ('seq', []):
+                    # nothing listed: only when the (optional) collection is known to be absent on this path
+                    absent = any(k[0] == 'tag' and v == 'neg' and (terms.access_path(k[1]) or (None,))[0] == 1 for k, v in s.state.facts.items())
+                    if not absent:
+                        bad.append('lists nothing although the collection may hold elements')
+                    continue
+                if not (items[0] == 'star' and items[1][0] == 'val'):
+                    bad.append('does not list one collection element by element: %s' % (items,))
+                    continue
+                r = em.role_of(s.state, items[1][1])
+                nm = em.role_name(r) if r is not None else None
+                if nm != want:
+                    bad.append('lists %s, expected the elements of %s' % (nm, want))
+            if e_unmodelled(em):
+                bad.append('INCONCLUSIVE(unmodelled callee %s)' % e_unmodelled(em))
+            rep.ob('listing:%s::%s' % (ty, name), 'TS-LISTING', fn, b['span'], '%s::%s lists every element of its collection, in stored order' % (ty, name), not bad and nret > 0,
+                   detail='\n'.join(sorted(set(bad))[:4]), how='%d paths' % nret)
+    return n
+
+
+def emit_transparent(prog, e, s, clos):
+    """|x| x.as_str() / x.as_ref(): a projection of the element to its own text"""
+    probe = ('ref', ('T', ('GP', 0), ('e', 'gp', 0)))
+    try:
+        outs = e.call_closure(s.state.copy(), clos, [probe])
+    except Exception:
+        return False
+    if len(outs) != 1:
+        return False
+    v = outs[0][1]
+    for _ in range(10):
+        if v == probe or (v[0] == 'slice' and v[1] == probe[1]):
+            return True
+        if v[0] in ('ref', 'cref') and isinstance(v[1], tuple):
+            if v[0] == 'ref' and v[1] == probe[1]:
+                return True
+            v = v[1]
+        elif v[0] == 'pure' and v[1].split('::')[-1] in ('deref', 'as_str', 'as_ref', 'borrow', 'as_deref', 'clone') and len(v[2]) == 1:
+            v = v[2][0]
+        else:
+            return False
+    return False
+
+
+def e_unmodelled(em):
+    un = [u for u in em.e.unmodelled if not re.search(r'(::fmt|write_str|write_char|write_fmt)$', u)]
+    return un[0] if un else None
 
 
 def is_empty_getters(prog, rep):
@@ -795,6 +905,8 @@ def mutator_obligations(rep, cfgs=('K0', 'K1'), with_getters=True):
                 n_ctor += mu.check_constructor(prog, fn, ty, allinv, rep, EXEMPT_CTORS)
             ne = is_empty_getters(prog, rep)
             rep.floor('is_empty getters of the extension types', ne, 4)
+            nl = listing_getters(prog, rep)
+            rep.floor('listing accessors', nl, 5)
             if with_getters:
                 ng = getters(prog, rep, roles)
                 rep.floor('validating getters', ng, 5)
